@@ -37,6 +37,9 @@ type OptCase struct {
 	// Pre: the stub already carries the plugin's option with another value (PreHex; default 01020304)
 	Pre    bool   `json:"pre,omitempty"`
 	PreHex string `json:"prehex,omitempty"`
+	// Others: option codes that other option plugins, listed earlier in the chain, have already put
+	// into the reply (with plausible values): they are none of this plugin's business
+	Others []int `json:"others,omitempty"`
 }
 
 var relevant4 = []uint16{1, 3, 6, 26, 51, 66, 67, 108, 116, 119, 121}
@@ -221,6 +224,17 @@ func GenOpt(t *rapid.T) OptCase {
 		}
 		perm := rapid.Permutation(l).Draw(t, "prl-order")
 		c.PRL = perm
+	}
+	if !c.V6 && rapid.IntRange(0, 2).Draw(t, "others") == 0 {
+		own := map[uint8]bool{}
+		for _, code := range plugOptionCodes4(c.Plugin) {
+			own[code] = true
+		}
+		for _, code := range []int{1, 3, 6, 15, 26, 51, 66, 67, 119, 121} {
+			if !own[uint8(code)] && rapid.IntRange(0, 2).Draw(t, "other-opt") == 0 {
+				c.Others = append(c.Others, code)
+			}
+		}
 	}
 	c.Pre = rapid.IntRange(0, 3).Draw(t, "pre") == 0
 	if c.Pre && !c.V6 {
@@ -441,6 +455,11 @@ func ExecOpt(c OptCase) (res core.Result) {
 			}
 			stub.Options.Update(dhcpv4.OptGeneric(dhcpv4.GenericOptionCode(code), pre))
 		}
+	}
+	for _, code := range c.Others {
+		val := map[int]string{1: "ffffff00", 3: "0a0a0a01", 6: "0808080808080404", 15: "6578616d706c65", 26: "05dc", 51: "00000e10",
+			66: "746674702e6578616d706c65", 67: "626f6f742e696d67", 119: "076578616d706c6503636f6d00", 121: "180a14140a0a0a01"}[code]
+		stub.Options.Update(dhcpv4.OptGeneric(dhcpv4.GenericOptionCode(uint8(code)), gen.UnH(val)))
 	}
 	before := stub.ToBytes()
 	btl, _ := gen.Options4(before)
